@@ -151,4 +151,5 @@ func genExtra() {
 	genC13()
 	genC04()
 	genC09()
+	genC01()
 }
